@@ -11,7 +11,8 @@
     [hist_calls h steps]: all host calls of the history, in order (receive calls, forced exits of
     persist, exits and closes of drop, call-site registrations of the restored receiver). *)
 From TT Require Import Tunnel.TypesProofs Tunnel.ReceiverSpec Tunnel.ReceiverInv Tunnel.ReceiverHistInv
-  Tunnel.ReceiverTrack Tunnel.ReceiverOrder Tunnel.ReceiverOrderProofs Judge.C08 Judge.RecvProofs.
+  Tunnel.ReceiverTrack Tunnel.ReceiverOrder Tunnel.ReceiverOrderProofs Tunnel.ReceiverRestoreOrder
+  Tunnel.ReceiverRestoreOrderProofs Judge.C08 Judge.RecvProofs.
 From stdpp Require Import gmap.
 Open Scope N_scope.
 
@@ -123,6 +124,29 @@ Theorem C08_close_once_any_order : forall steps obs',
   hist_scope hist_init steps -> Forall2 obs_reorder (hist_run hist_init steps) obs' ->
   NoDup (closed (flat_map mobs_calls obs')).
 Proof. exact hist_close_once_any_order. Qed.
+
+(** the iteration orders as a parameter of the model ([hist_run_ord], Tunnel/ReceiverRestoreOrder.v):
+    for every choice of orders in every restore and every finalisation, the run in those orders is
+    accepted by the strict tracker and closes no id twice *)
+Theorem C08_history_ids_valid_every_order : forall orc steps,
+  oracle_ok orc -> hist_scope hist_init steps ->
+  exists opn, track_all ∅ (flat_map mobs_calls (hist_run_ord orc hist_init steps)) = Some opn /\
+              TInv (h_st (hist_final_ord orc hist_init steps)) (h_w (hist_final_ord orc hist_init steps)) opn.
+Proof. exact hist_ids_valid_every_order. Qed.
+
+Theorem C08_close_once_every_order : forall orc steps,
+  oracle_ok orc -> hist_scope hist_init steps ->
+  NoDup (closed (flat_map mobs_calls (hist_run_ord orc hist_init steps))).
+Proof. exact hist_close_once_every_order. Qed.
+
+(** [new] in any order of the persisted metadata: same receiver, same set of interned call sites,
+    the same registrations up to order *)
+Theorem C08_restore_in_any_order : forall w md pi spans local,
+  pi ≡ₚ map_to_list md ->
+  let '(st, w', regs) := restore w md spans local in
+  let '(st2, w2, regs2) := restore_in_order w pi spans local in
+  st2 = st /\ arena_equiv w' w2 /\ reg_reorder regs regs2.
+Proof. exact restore_in_order_spec. Qed.
 
 (** the strict tracker cannot tell two such orders apart *)
 Theorem C08_tracker_order_insensitive : forall opn l l',
